@@ -12,7 +12,7 @@ from .tla import tla, tla_set
 
 FIXED = set(filter(None, os.environ.get("VERIF_FIXED_DOMAINS", "F4").split(",")))
 GENS = ("nearsq", "rect", "birect", "zoned")
-INVS = ["InsideLand", "SpacingAtLeastBmin", "NearSquareShape", "CountsNonDecreasing", "CountsStrictlyIncreasing", "NonEmpty", "NoCandidateWithoutCount", "BiRectListsStartWithSingle"]
+INVS = ["InsideLand", "SpacingAtLeastBmin", "NearSquareShape", "CountsNonDecreasing", "CountsStrictlyIncreasing", "NonEmpty", "NoCandidateWithoutCount", "BiRectListsStartWithSingle", "BiRectFirstListLongEnough"]
 
 
 def admissible(lx, ly, bmin, bmx, bmy, gen, need_count=True):
